@@ -2,7 +2,10 @@ package main
 
 import (
 	"encoding/hex"
+	"fmt"
+	"os"
 	"strings"
+	"time"
 
 	"github.com/ipfs/ipfs-cluster/api"
 
@@ -17,7 +20,11 @@ import (
 //   C08 fuzz str:<ts|pt|pm|ips> <hex input> => ok:reenc-ok | panic
 
 func runFuzz(out *common.Out, decoder string, input []byte) {
+	t0 := time.Now()
 	outcome := fuzzOne(decoder, input)
+	if d := time.Since(t0); d > 20*time.Millisecond && os.Getenv("C08_SLOW") != "" {
+		fmt.Fprintf(os.Stderr, "SLOW %v %s %d bytes %s\n", d, decoder, len(input), outcome)
+	}
 	out.Line("C08 fuzz %s x%s => %s", decoder, hex.EncodeToString(input), outcome)
 }
 
@@ -166,8 +173,17 @@ func mutate(r *common.Rng, format string, bs []byte) []byte {
 				b = append(b[:e:e], append(append([]byte(nil), b[p:e]...), b[e:]...)...) // duplicate a range
 			}
 		default:
-			if p+4 <= len(b) { // blow up a length prefix
-				b[p], b[p+1], b[p+2], b[p+3] = 0xdd, 0x7f, 0xff, 0xff
+			if p+5 <= len(b) { // blow up a length prefix (the 2^31 one costs ugorji about a second: keep it rare)
+				switch x := r.Intn(40); {
+				case x == 0:
+					b[p], b[p+1], b[p+2], b[p+3], b[p+4] = 0xdd, 0x7f, 0xff, 0xff, 0xff
+				case x < 10:
+					b[p], b[p+1], b[p+2], b[p+3], b[p+4] = 0xdd, 0x00, 0x02, 0x00, 0x00
+				case x < 20:
+					b[p], b[p+1], b[p+2], b[p+3], b[p+4] = 0xdb, 0x00, 0x01, 0x00, 0x00
+				default:
+					b[p], b[p+1], b[p+2] = 0xdc, 0xff, 0xff
+				}
 			}
 		}
 	}
@@ -197,6 +213,9 @@ func genFuzz(out *common.Out, r *common.Rng, k int) {
 		rec = wire.RecordByName([]string{"Pin", "Pin", "PinOptions", "LogOp", "ID", "GlobalPinInfo"}[r.Intn(6)])
 	} else {
 		rec = &wire.Records[r.Intn(len(wire.Records))]
+	}
+	if r.Chance(1, 30) {
+		rec = &wire.SnapshotRecord
 	}
 	format := rec.Formats[r.Intn(len(rec.Formats))]
 	decoder := format + ":" + rec.Name
